@@ -455,6 +455,10 @@ impl Module for M {
                 let o = t.i32();
                 ctx.count("offset");
                 let q = r.offset(o);
+                // the `OffsetOutline` trait impl (what the generic stroke / fill area code calls) is the same function
+                // (round-5 seed C16-r5-1: a rewrite of the trait impl through with_corners, wrong for tall narrow shapes)
+                let via_trait = <Rectangle as embedded_graphics::primitives::OffsetOutline>::offset(&r, o);
+                ctx.expect(via_trait == q, "offset-trait-vs-method", || format!("trait {} method {}", fmt_rect(&via_trait), fmt_rect(&q)));
                 // offsetting by n moves every side by n (when the result is not degenerate)
                 let w = r.size.width as i64;
                 let h = r.size.height as i64;
